@@ -50,7 +50,9 @@ TEXT["C01"] = {
 TEXT["C02"] = {
     "text": "Theorems: write-then-read returns the canonical exchange, limits are enforced (no file that reads back "
             "differently), verdict invariant under the round trip; model compared with the library on sign->write->read->"
-            "verify flows (versions x curves x record sizes x payload lengths) and at every length-field boundary.",
+            "verify flows (versions x curves x record sizes x payload lengths), at every length-field boundary, on URIs and "
+            "header maps the reader refuses, and with a property-level judge that compares the implementation's verdict before "
+            "Write and after ReadExchange (known finding K2: b3 + stateful in-memory request header).",
     "note": SXG_NOTE}
 TEXT["C08"] = {
     "text": "Theorems: model serializers (header CBOR, signed message b1 and b2/b3, Signature header, file layout, header "
@@ -74,9 +76,10 @@ BUNDLE_NOTE = (COMMON_NOTE + "URLs are strings; url.Parse / URL.String() are a p
                "net/url each run, cases outside its decided class are skipped and counted; x509.ParseCertificate (signatures "
                "section authorities) is an oracle table; http.Header canonicalisation is modelled.")
 TEXT["C03"] = {
-    "text": "Theorems over the model of Bundle.WriteTo / bundle.Read: reading what was written returns the normalised bundle "
-            "(nothing lost, duplicated or re-attributed; variants in row-major order; bad coverage refused) and the "
-            "write/read cycle reaches a byte-identical fixpoint; model compared with the library on generated bundles "
+    "text": "Theorems over the model of Bundle.WriteTo / bundle.Read: whatever the writer accepts (b_write = Ok; the only "
+            "side condition left is that the partial URL model decides the URLs and that authority certificates parse) "
+            "reads back as the normalised bundle (nothing lost, duplicated or re-attributed; variants in row-major order; "
+            "bad coverage refused), the writer never panics, and the write/read cycle reaches a byte-identical fixpoint; model compared with the library on generated bundles "
             "(both versions, 0..40 exchanges, URL shapes, CBOR-boundary body sizes, primary/manifest/signatures, variant "
             "grids incl. incomplete/overlapping/multi-key) through write, read and a 3-step write/read cycle.",
     "note": BUNDLE_NOTE}
@@ -94,14 +97,16 @@ TEXT["C05"] = {
     "note": BUNDLE_NOTE}
 TEXT["C06"] = {
     "text": "Theorems over the model of the signatures-section signer/verifier: signed-subset encode/decode round trip, "
-            "authority-index invariant over any sequence of signers, covered exchanges verify inside the window and yield "
-            "the original body, uncovered ones are unsigned, success binds header hash + MI-authenticated body; model "
+            "authority-index invariant over any sequence of signers, exchanges for which AddPayloadIntegrity succeeded (any "
+            "record size it accepts, no prior Digest value) verify inside the window and yield the original body, uncovered ones are unsigned, success binds header hash + MI-authenticated body; model "
             "compared with the library on 1..3-signer histories with real ECDSA P-256/P-384 (oracle tables checked with "
-            "the standard library), before/after write->read, under exchange and signatures-section mutations and times.",
+            "the standard library), before/after write->read, under exchange and signatures-section mutations and times, and on "
+            "hand-assembled signed subsets that are re-signed correctly (structure edits behind a valid signature).",
     "note": SXG_NOTE + " CanSignForURL (x509 hostname check) is decided by the harness, not modelled."}
 TEXT["C07"] = {
     "text": "Theorems over the model of the integrity-block signer: data-to-be-signed layout and injectivity, signature "
-            "added only if it verifies under the recorded key, stack invariant over any sequence of signing operations, "
+            "added only if it verifies under the key its own attributes record (enforced by the signer, not assumed), stack "
+            "invariant over any history of succeeding and failing signing attempts, "
             "output = deterministic-CBOR block ++ untouched file, trailing-length checks, Web Bundle ID; model compared "
             "with the library and the sign-bundle binary on generated files/keys/attribute maps/strategies.",
     "note": COMMON_NOTE + "SHA-512 and Ed25519 are oracles/parameters in the theorems (Gallina SHA-512 for execution, "
@@ -141,7 +146,9 @@ TEXT["C20"] = {
             "a Gallina function compared with what the gen-bundle binary writes. The tool compositions (gen-certurl->dump-certurl, "
             "gen-signedexchange->dump-signedexchange -verify with SEC1/PKCS#8/encrypted keys and -o -, gen-bundle->sign-bundle "
             "both sub-commands->dump-bundle, dump-id) are exercised through the seven binaries built from the working tree; "
-            "flag/PEM/PKCS#8/HAR parsing and http.ServeFile are standard-library glue covered only by that run.",
+            "gen-bundle -har is modelled (Model/Har.v: which entries become exchanges; refused or readable artifact), inputs "
+            "sign-bundle must refuse (mismatching key, record size 0 / -1 / 16385, pre-existing empty Digest) are exercised; "
+            "flag/PEM/PKCS#8 parsing and http.ServeFile are standard-library glue covered only by that run.",
     "note": COMMON_NOTE + "http.ServeFile, flag, encoding/pem, x509, pkcs8 and the file system are not modelled; file names that are not "
             "valid UTF-8 or contain a '..' element (refused by http.ServeFile itself) and base URLs outside the decided class are skipped and counted."}
 NOT_YET = {}
